@@ -47,6 +47,20 @@ check('C08', 'exploration', 'offline checker of leak demand vs Cd*A*sqrt(2gp) an
       'Every leaking junction/tank x reported step: leak == Cd*A*sqrt(2*g*p) while active and p>0, zero otherwise/outside the '
       'window/after remove_leak; off-grid window edges are solved instants; node balance includes the leak; histories: single run, '
       'run/reset/run, add+remove, run/remove/continue.', SIMNOTE, 'DESIGN.md#C08')
+check('C10', 'exploration', 'history oracle: concatenated results of paused/pickled/continued runs vs one uninterrupted run of an identically built model',
+      'Seeded networks with tanks, controls, rules, leaks, isolation schedules; 1-3 pauses on the hydraulic grid with/without '
+      'pickle, new simulator per part; index continuation rules and value/status equality to solver tolerance, with a '
+      'noise-amplification rule that separates defects (jumps) from explicit-Euler amplification of solver noise.',
+      SIMNOTE, 'DESIGN.md#C10')
+check('C11', 'exploration', 'to_dict snapshot contract around run_sim of both simulators + run/reset/run and equal-model (deepcopy, pickle, dict) result comparison',
+      'Definition (JSON-normalised to_dict) compared before/after every WNTRSimulator and EpanetSimulator run; run 1 vs run n '
+      'after reset_initial_values; original vs deepcopy/pickle/dict copies; models built through the API without a prior reset, '
+      'non-default initial statuses, odd report steps.', SIMNOTE, 'DESIGN.md#C11')
+check('C16', 'fault_enumeration', 'fault injection at the _solver_helper hook for every solve index k x {warn, raise, backup ok, backup fails} + organic iteration/trial limits; shape and prefix oracles',
+      'Clean run counts N solves (logical clock); each solve k is made to fail (all k in thorough, sampled in quick) under four '
+      'regimes; returned tables must share one increasing index on the report grid with exactly one column per element and '
+      'finite values, the failure must be raised or warned + error_code, and the rows reported before it must equal the '
+      'non-failing run.', 'Fault model: the solver reports SolverStatus.error at the _solver_helper boundary. ' + SIMNOTE, 'DESIGN.md#C16')
 
 NOT_YET = 'monitor not built yet in this commit (planned in DESIGN.md section 4)'
 ALL = ['C%02d' % i for i in range(1, 21)]
